@@ -22,7 +22,6 @@ def main():
         if c is None or (not hs and not eb) or c.get("na"):
             na.append({"property_id": pid, "reason": (c or {}).get("na", "no deciding kernel built (see DESIGN.md)")})
             continue
-        quick = [n for n in hs if registry.HARNESSES[n].get("tier", "quick") in ("quick", "quick-only")]
         checks.append({
             "property_id": pid,
             "quick_cmd": "./check %s --tier quick" % pid,
